@@ -305,6 +305,53 @@ def enumerate_cases(atoms, nonneg=True, extra_consts=(), variant_domain=None, co
         order_types.append(pos)
         if len(order_types) > max_cases:
             raise Undecided("too many order types")
+    if nonneg:
+        # Points that are sums/differences of other points are not free: the feasible order types are exactly those some
+        # assignment of (small) non-negative integers to the remaining points realises.  Enumerate those assignments and keep the
+        # order types they induce (a decision procedure for the table over a finite abstract domain - no solver, no program run).
+        derived = [t for t in ints if t[0] == "bin" and t[1] in ("Add", "Sub") and len(t) == 4]
+        if derived and (not cs or max(cs) <= 4):
+            iset = set(ints)
+
+            def is_known(x):
+                return x in iset or x[0] == "int"
+            derived = [t for t in derived if is_known(_int_key(t[2])) and is_known(_int_key(t[3]))]
+            dset = set(derived)
+            base = [t for t in ints if t not in dset]
+            K = len(ints) + (max(cs) if cs else 0) + 2      # enough room to realise every order type of the points
+            if derived and K ** len(base) <= 400000:
+                seen2 = set()
+                realised = []
+                # evaluate derived points in dependency order
+                order_d = sorted(derived, key=lambda t: len(repr(t)))
+                for combo in itertools.product(range(K), repeat=len(base)):
+                    val = {("int", c): c for c in cs}
+                    for t, v in zip(base, combo):
+                        val[t] = v
+                    ok = True
+                    for t in order_d:
+                        a, b = _int_key(t[2]), _int_key(t[3])
+                        va = val.get(a, a[1] if a[0] == "int" else None)
+                        vb = val.get(b, b[1] if b[0] == "int" else None)
+                        if va is None or vb is None:
+                            ok = False
+                            break
+                        val[t] = va + vb if t[1] == "Add" else max(va - vb, 0)
+                    if not ok:
+                        realised = None
+                        break
+                    allv = sorted(set(val.values()))
+                    rank = {v: float(i) for i, v in enumerate(allv)}
+                    sig = tuple(rank[val[t]] for t in ints) + tuple(rank[c] for c in cs)
+                    if sig in seen2:
+                        continue
+                    seen2.add(sig)
+                    pos = {("int", c): rank[c] for c in cs}
+                    for t in ints:
+                        pos[t] = rank[val[t]]
+                    realised.append(pos)
+                if realised:
+                    order_types = realised
     if not order_types:
         order_types = [dict(const_pos)]
     vterms = list(variants.keys())
